@@ -15,7 +15,7 @@ RULE = {"C09": "generated owner classes with 1-6 tunables (defaults of every sup
                ">=2 tunables and >=1 NetworkTables-side write observed from python and >=1 python write observed from "
                "NetworkTables; distinct = hash of (definition, history)."}
 RULE["C09"] += '  Also: owners that are StateMachines or falsy objects, hints on a base class, inherited and redefined tunables, nearly-equal pre-existing struct values (compared by field), a second object bound under a used name.'
-REQUIRED = {"C09": {"new-object-bound-under-a-new-name": 50, "new-object-at-the-address-of-the-collected-one": 5, "pre-existing-value-published-with-setDefault": 20, "falsy-owner": 100, "type-hint-on-base-class": 20, "writeDefault-true-overwrites-nearly-equal-struct": 10, "type:boolean": 50, "type:int": 50, "type:double": 50, "type:string": 50, "type:raw": 20, "type:struct:Rotation2d": 20,
+REQUIRED = {"C09": {"tunables-on-a-base-robot-class": 10, "new-object-bound-under-a-new-name": 50, "new-object-at-the-address-of-the-collected-one": 5, "pre-existing-value-published-with-setDefault": 20, "falsy-owner": 100, "type-hint-on-base-class": 20, "writeDefault-true-overwrites-nearly-equal-struct": 10, "type:boolean": 50, "type:int": 50, "type:double": 50, "type:string": 50, "type:raw": 20, "type:struct:Rotation2d": 20,
                     "type:boolean[]": 20, "type:int[]": 20, "type:double[]": 20, "type:string[]": 20, "type:struct:Rotation2d[]": 10,
                     "empty-hinted": 30, "writeDefault-true-overwrites": 50, "writeDefault-false-preserves": 50, "writeDefault-false-preserves-falsy": 10, "subtable": 100, "redefines-inherited-tunable": 30, "base-class-instance-bound-first": 30, "statemachine-owner": 50, "negative-duration-value": 30,
                     "rebound-under-used-name": 50,
@@ -116,6 +116,7 @@ def gen_case(rng, uid):
              "pre_via_setDefault": rng.random() < 0.3}
         tun.append(t)
     via_robot = rng.random() < 0.2
+    derived_robot = False
     if via_robot:
         owner = rng.choice(["component", "component2", "mode", "robot"])
         instances = [{"name": f"o{uid}", "prefix": {"component": "components", "component2": "components", "mode": "autonomous", "robot": None}[owner]}]
@@ -124,6 +125,7 @@ def gen_case(rng, uid):
             instances.append({"name": f"p{uid}", "prefix": "components"})
         if owner == "robot":
             instances[0]["name"] = "robot"
+            derived_robot = rng.random() < 0.5
             # (all three annotation spellings are generated for the robot class too - see finding F10)
     else:
         owner = "direct"
@@ -143,7 +145,7 @@ def gen_case(rng, uid):
         if rng.random() < 0.2:
             ops.append(["adv", rng.choice([0, 1, 20000])])
     case = {"uid": uid, "owner": owner, "tunables": tun, "instances": instances, "ops": ops, "base_instance_first": rng.random() < 0.3,
-            "truth": rng.choice([None, None, None, None, None, "len0", "boolFalse"])}
+            "truth": rng.choice([None, None, None, None, None, "len0", "boolFalse"]), "derived_robot": derived_robot}
     if owner in ("direct", "component", "component2") and rng.random() < 0.3:
         # the owner is a magicbot.StateMachine: its timed state's duration is a tunable like any other
         # (/components/N/state/<state>_duration), including values a dashboard user may type that make no sense (negative)
@@ -363,6 +365,8 @@ def _run_case(acc, case):
                 r = bind_via_robot(case, cls)
                 objs.extend(r if isinstance(r, list) else [r])
                 acc.ev("via-magicrobot")
+                if case.get("derived_robot"):
+                    acc.ev("tunables-on-a-base-robot-class")
                 if isinstance(r, list):
                     acc.ev("via-magicrobot-two-components-one-class")
         except Exception as e:  # noqa
@@ -608,6 +612,9 @@ def bind_via_robot(case, cls):
         DriverStationSim.resetData()
         if owner == "robot":
             R = build_class(case, base=magicbot.MagicRobot)
+            if case.get("derived_robot"):
+                # the tunables (annotated ones included) are declared on a base robot class shared by several robots
+                R = type("DR" + case["uid"], (R,), {})
         else:
             R = type("TR" + case["uid"], (magicbot.MagicRobot,), body)
         robot = R()
